@@ -118,7 +118,7 @@ def execute(case):
         try:
             inter.add(cl.run())
         except Violation as v:
-            out.update(status="violation", oracle=v.oracle, message=v.message, env_index=i)
+            out.update(status="violation", oracle=v.oracle, message=v.message, env_index=i, tape=[list(x) for x in tape.log])
             return out
         for c in range(n):
             d = first_diff(expected(c0.hist, roles, c, n), cl.cores[c].hist)
